@@ -1247,3 +1247,6 @@ M("c14_claimed_reported_as_alloc_failure_dyn", ["C14"], ["C14.R5"], [
             return Err(request_failed(&bump, layout));""", """        let Ok(range) = bump.prepare_allocation_rev(layout) else {
             return Err(E::allocation(layout));""")])
 
+M("c04_anychunk_from_detached_lifetime_revert", ["C04"], ["C04.R3", "C04.W", "C04.R4"], [
+    ("src/stats/any.rs", """impl<'a, A, S> From<Chunk<'a, A, S>> for AnyChunk<'a>""", """impl<A, S> From<Chunk<'_, A, S>> for AnyChunk<'_>"""),
+    ("src/stats/any.rs", """    fn from(value: Chunk<'a, A, S>) -> Self {""", """    fn from(value: Chunk<'_, A, S>) -> Self {""")])
